@@ -574,6 +574,11 @@ class Gen:
                     it.explicit = r2.random() < p
                     if it.explicit:
                         self.features.add("explicit-default-occurs")
+                    if it.kind == "element" and it.type.builtin and r2.random() < self.cfg.get("p_default_value", 0.15):
+                        # a default value says what an *empty* element means; it does not make the element optional
+                        it.default = default_lexical(it.type.name)
+                        if it.default is not None:
+                            self.features.add("element-default-value")
 
         for f in self.files:
             for c in f.components:
@@ -584,6 +589,8 @@ class Gen:
                     walk(content.group)
                 for a in content.attrs:
                     a.explicit = r2.random() < p
+                    if not a.required and a.type.builtin and r2.random() < self.cfg.get("p_default_value", 0.15):
+                        a.default = default_lexical(a.type.name)
 
     def add_decoys(self):
         """Name-collision decoys (C09): for a global element that is referred to by ref= from its own file, another type of that
@@ -670,6 +677,17 @@ class Gen:
         op_snakes, op_pascals, msg_names = set(), set(), set()
         for _ in range(nops):
             op_name = names.fresh(op_snakes, op_pascals)
+            import random as _random
+            r3 = _random.Random("op-name:" + op_name.xml + str(len(w.operations)))
+            if r3.random() < self.cfg.get("p_prelude_op_name", 0.12):
+                # operations named like prelude / reserved type names (Default, Option, ...): envelope and method names derive from it
+                word = r3.choice(["default", "option", "string", "vec", "rc", "result", "box", "self"])
+                cand = Name((word,), r3.choice(["pascal", "snake", "upper", "camel"]))
+                if cand.snake not in op_snakes and cand.pascal not in op_pascals:
+                    op_snakes.add(cand.snake)
+                    op_pascals.add(cand.pascal)
+                    op_name = cand
+                    self.features.add("operation-named-like-prelude-type")
 
             def new_element(fidx_choices):
                 fidx = r.choice(fidx_choices)
@@ -817,6 +835,22 @@ def flat_members(c):
 
 def flat_member_snakes(c):
     return [m["name"].snake for m in flat_members(c)]
+
+
+def default_lexical(builtin):
+    """A valid default value for a builtin, or None for families not bothered with."""
+    c = BUILTINS.get(builtin)
+    if builtin in ("string", "normalizedString"):
+        return "n/a"
+    if builtin in ("negativeInteger", "nonPositiveInteger"):
+        return "-1"
+    if c and c[0] in "iu":
+        return "1"
+    if c == "bool":
+        return "true"
+    if c in ("f32", "f64"):
+        return "1.5"
+    return None
 
 
 def r2_twin(g):
